@@ -216,7 +216,7 @@ def _per_row_position_sets(ctx, m, W) -> bool:
         if is_sets and reads:
             used.append(T)
     if len(used) != 1:
-        return False
+        return _per_row_column_updates(ctx, m, W)
     T = used[0]
     tname = show(T)[:40]
     nsite = 0
@@ -240,6 +240,48 @@ def _per_row_position_sets(ctx, m, W) -> bool:
         return False
     if not ctx.by("VIOLATION"):
         ctx.unrec("R1", "csr-construction:from recorded positions", W, "the CSR arrays are built from recorded per-row position sets; beyond the pairing above the construction is not decided")
+    return True
+
+
+def _per_row_column_updates(ctx, m, W) -> bool:
+    """As _per_row_position_sets, for the coarser spelling `cols[row].update(<columns>)` / `.add(col)` with the builder walking
+    `enumerate(cols)` / `cols[row]`: a (row, column) pairing per site is not attempted, only the one thing that is decidable whatever the
+    spelling -- a block that stores terms into the Jacobian table (the reaction loop, the ODE-modifier loop, a thermal loop) and records
+    NOTHING in the per-row sets contributes entries the sparse arrays never hold.  -> True when this construction was recognised."""
+    fl = m.flow
+    recs = {}
+    for f in fl.facts:
+        if f.kind == "call" and f.target in ("add", "update") and f.value is not None:
+            v = simp(f.value)
+            if v[0] == "meth" and v[2] in ("add", "update") and len(v[3]) == 1 and not v[4] and v[1][0] == "sub":
+                recs.setdefault(v[1][1], []).append(f)
+    used = []
+    for T in recs:
+        is_sets = (T[0] == "comp" and T[2] in (("call", ("global", "set"), (), ()), ("set", ()))) or T[0] == "acc"
+        reads = any(any(x == T for x in walk_(simp(lp.iter))) for f in fl.facts if f.kind == "append" for lp in f.loops)
+        if is_sets and reads:
+            used.append(T)
+    if len(used) != 1:
+        return False
+    T = used[0]
+    tname = show(T)[:40]
+    rec_loops = {f.loops[0].id for f in recs[T] if f.loops}
+    nsite = 0
+    for site in m.sites:
+        if site.array != "jacrhs" or site.kind not in ("loss", "gain", "mod", "heat", "cool") or not site.fact.loops:
+            continue
+        nsite += 1
+        ok = site.fact.loops[0].id in rec_loops
+        ctx.check(ok, "R1", f"position record:{site.kind}@{site.fact.line}", (FILE, site.fact.line),
+                  f"the block of the {site.kind} term records columns in the per-row sets" if ok else
+                  f"the {site.kind} site stores a term into the Jacobian table inside a loop that records nothing in the per-row column sets ({tname}..) from which the CSR "
+                  "arrays and NNZ are built: an entry that only this site contributes is assigned by the dense / odeint Jacobian and marked in the pattern file, but is "
+                  "not stored in the sparse matrix",
+                  expected="<sets>[row].add(col) / .update(cols) next to the store", found="no record in the enclosing loop")
+    if not nsite:
+        return False
+    if not ctx.by("VIOLATION"):
+        ctx.unrec("R1", "csr-construction:from recorded positions", W, "the CSR arrays are built from recorded per-row column sets; beyond the presence of a record per writer block the construction is not decided")
     return True
 
 
